@@ -1,7 +1,9 @@
 #!/usr/bin/env python3
 """Copies verified seeded changes from /tmp/seed-out/<ID>/mN into /verif/seeded/<ID>-mN/ with meta.json."""
 import json, os, shutil, sys, glob, re
-SRC = "/tmp/seed-out"
+import sys
+SRC = sys.argv[1] if len(sys.argv) > 1 else "/tmp/seed-out"
+SUFFIX = sys.argv[2] if len(sys.argv) > 2 else ""
 DST = "/verif/seeded"
 for d in sorted(glob.glob(SRC + "/C*/m*")):
     pid = d.split("/")[-2]; m = d.split("/")[-1]
@@ -11,7 +13,7 @@ for d in sorted(glob.glob(SRC + "/C*/m*")):
     ok = v["applies"] and v["suite_ok"] and v["demo_fails_with_change"] and v["demo_passes_without_change"]
     if not ok:
         print("NOT KEPT", d, v); continue
-    out = os.path.join(DST, "%s-%s" % (pid, m))
+    out = os.path.join(DST, "%s-%s%s" % (pid, SUFFIX, m))
     os.makedirs(out, exist_ok=True)
     for f in ["patch.diff", "demo_test.rs", "demo.rs", "notes.md", "patch.orig.diff"]:
         if os.path.exists(os.path.join(d, f)): shutil.copy(os.path.join(d, f), os.path.join(out, f))
